@@ -124,3 +124,54 @@ pub fn c05_rejoin() {
         vsym::check("resync.token-of-new-database", match (peek(&cl.nodes[0].dbs, "e", "$$token"), peek(&cl.nodes[1].dbs, "e", "$$token")) { (Some(a), Some(b)) => a.value == b.value, _ => false });
     }
 }
+
+struct SendLoop(Loop);
+unsafe impl Send for SendLoop {}
+/// "Writes accepted by the primary during the synchronisation are not lost": the primary's REAL supervisor serves a
+/// `replicate-since` request of the returning node (full or incremental) while a client write to the same key runs through the
+/// primary's real replication loop; all interleavings at lock-acquisition granularity. On the link to the returning node the
+/// live copy of the write may be followed by catch-up lines for that key only if they already carry the new value (otherwise
+/// the older value overwrites the acknowledged write there). Judged on the link, independently of what the receiver's parser
+/// makes of a catch-up line (recorded finding C05-sync-messages-lack-version).
+pub fn c05_write_during_sync() {
+    let mut cl = mk_cluster(1);
+    let (mut admin, mut arx) = admin_client(&cl.nodes[0].dbs);
+    process_request("create-db d tok", &cl.nodes[0].dbs, &mut admin);
+    vsym::assume(cl.settle(80, false).is_some());
+    let (mut c, mut rx) = db_client(&cl.nodes[0].dbs, "d");
+    process_request("set a v0", &cl.nodes[0].dbs, &mut c);
+    vsym::assume(cl.settle(80, false).is_some());
+    let full = vsym::param("full", 1) == 1;
+    let since = if full { 0 } else { Oplog::last_op_time() };
+    if !full { process_request("set a v1", &cl.nodes[0].dbs, &mut c); vsym::assume(cl.settle(80, false).is_some()); }
+    // the returning node asks for what it missed (over its authenticated replication session)
+    let r = process_request(&["replicate-since n2 ", &since.to_string()].concat(), &cl.nodes[0].dbs, &mut cl.links[1].server);
+    vsym::assume(is_ok(&r));
+    let mut l = 0; while l < cl.links.len() { drain(&mut cl.links[l].out_rx); l += 1; }
+    let sup = SendLoop(start_supervisor(&mut cl.nodes[0]));
+    let dummy: Loop = Box::pin(async {});
+    let repl = SendLoop(std::mem::replace(&mut cl.nodes[0].repl, dummy));
+    quiet_client(&c); cl.nodes[0].dbs.map.set_quiet(1); cl.nodes[0].dbs.query_ema.set_quiet(2); cl.nodes[0].dbs.replication_ema.set_quiet(2);
+    let d2 = cl.nodes[0].dbs.clone();
+    // sending a line is a yield point here: the write may land between the moment the catch-up reads the key and the moment its line is queued
+    unsafe { futures::channel::mpsc::YIELD_ON_SEND = true; }
+    let t1 = vsym::spawn(move || { let mut s = sup; poll_once(&mut s.0); true });
+    let t2 = vsym::spawn(move || { let mut rp = repl; let ok = is_ok(&process_request("set a w", &d2, &mut c)); poll_once(&mut rp.0); ok });
+    vsym::join(t1); let acked = vsym::join(t2);
+    unsafe { futures::channel::mpsc::YIELD_ON_SEND = false; }
+    vsym::check("sync-race.write-acknowledged", acked);
+    // what travels to the returning node, in order
+    let out = drain(&mut cl.links[0].out_rx);
+    let mut seen_live = false; let mut k = 0; let mut catch_up_lines = 0;
+    while k < out.len() {
+        let m = out[k].trim_end_matches("\n").to_string();
+        if m.starts_with("rp ") && m.ends_with(" w") { seen_live = true; vsym::cover("sync-race.live-copy-sent", true); }
+        else if m.starts_with("replicate d a ") || m == "replicate d a" {
+            catch_up_lines += 1;
+            if seen_live { vsym::cover("sync-race.catch-up-after-live-copy", true); vsym::check("sync-race.no-older-value-after-the-live-copy", m.ends_with(" w")); }
+        }
+        k += 1;
+    }
+    vsym::check("sync-race.catch-up-line-for-the-key", catch_up_lines >= 1);
+    vsym::check("sync-race.live-copy-reaches-the-returning-node", seen_live);
+}
